@@ -46,6 +46,8 @@ PROPS = {
     'C14': {'quick': ['A', 'B'], 'thorough': ALLCFG, 'level': 'other', 'e2': True, 'roots': 'anchors'},
     'C15': {'quick': ['A', 'B'], 'thorough': ALLCFG, 'level': 'other', 'e2': True, 'roots': 'anchors'},
     'C16': {'quick': ['A', 'B'], 'thorough': ALLCFG, 'level': 'other', 'e2': True, 'roots': 'anchors'},
+    # (the listing clause of C19: which entries reach the formatter; DESIGN 14.22)
+    'C19': {'quick': ['A', 'B'], 'thorough': ALLCFG, 'level': 'other', 'e2': True, 'roots': 'anchors'},
     # (both profiles of the serde build: an insertion written inside debug_assert! vanishes in release)
     'C20': {'quick': ['D', 'F'], 'thorough': ['D', 'F'], 'level': 'other', 'e2': True, 'roots': 'anchors'},
 }
